@@ -85,6 +85,12 @@ def run(chk):
     chk.saw(swp)
     idx = {folder.try_fold(n.slice, Scope(mod), None) for n in own_nodes(swp.node) if isinstance(n, ast.Subscript)}
     chk.check(idx == {0x6041}, "R1", f"{P}:BaseNode402.statusword | object", swp.loc(), f"statusword read from objects {sorted(hex(i) for i in idx if i)}; CiA 402: 0x6041")
+    sw_rets = [n for n in own_nodes(swp.node) if isinstance(n, ast.Return) and n.value is not None]
+    in_handler = {id(r) for h in own_nodes(swp.node) if isinstance(h, ast.ExceptHandler) and "KeyError" in src(h.type or ast.Constant(None)) for r in ast.walk(h) if isinstance(r, ast.Return)}
+    pdo_r = [r for r in sw_rets if src(r.value).startswith("self.tpdo_values[") and id(r) not in in_handler]
+    sdo_r = [r for r in sw_rets if src(r.value).startswith("self.sdo[") and src(r.value).endswith(".raw") and id(r) in in_handler]
+    chk.check(len(pdo_r) == 1 and len(sdo_r) == 1 and len(sw_rets) == 2, "R1", f"{P}:BaseNode402.statusword | cached TPDO value, SDO read as fallback", swp.loc(),
+              f"returns {[src(r.value) for r in sw_rets]}; expected tpdo_values[0x6041] and, under KeyError, sdo[0x6041].raw")
 
     # ------------------------------------------------------------------ R2 machine
     tt, w_tt = table("TRANSITIONTABLE")
@@ -217,6 +223,27 @@ def run(chk):
     tr = [n for n in own_nodes(oms.node) if isinstance(n, ast.Raise) and "TypeError" in src(n)]
     chk.check(bool(tr), "R4", f"{P}:BaseNode402.op_mode.setter | refusal raises", oms.loc(), "no TypeError for unsupported modes")
 
+    for s in stores:
+        g = [(fo.norm(e, subst=False), p) for e, p in fo.facts_at(s) if "rpdo_pointers" in src(e)]
+        via_pdo = "rpdo_pointers" in src(s.targets[0])
+        chk.check(g in ([("24672 in self.rpdo_pointers", via_pdo)], [("24672 not in self.rpdo_pointers", not via_pdo)]), "R4", f"{P}:BaseNode402.op_mode.setter | {'PDO' if via_pdo else 'SDO'} path chosen by the RPDO mapping of 0x6060",
+                  oms.loc(s), f"`{src(s)[:50]}` under {g}")
+    for c in find_calls(oms.node, ".transmit"):
+        stc = fo.stmt_of(c)
+        g = [(fo.norm(e, subst=False), p) for e, p in fo.facts_at(stc)]
+        pd = fo.raw_def_at("pdo", stc)
+        chk.check((("pdo.is_periodic", False) in g or ("not pdo.is_periodic", True) in g) and pd is not None and fo.norm(pd, subst=False) == "self.rpdo_pointers[24672].pdo_parent" and src(c.func) == "pdo.transmit",
+                  "R4", f"{P}:BaseNode402.op_mode.setter | event-driven RPDO with the mode is transmitted", oms.loc(c), f"{src(c)} under {g}; pdo = {src(pd) if pd is not None else '?'}")
+    cache = [n for n in own_nodes(sp.node) if isinstance(n, ast.Assign) and src(n.targets[0]) == "self._op_mode_support"]
+    chk.check(len(cache) == 1 and fsp.norm(cache[0].value, subst=False) == "self.sdo[25858].raw", "R4", f"{P}:BaseNode402.is_op_mode_supported | supported modes read from 0x6502", sp.loc(), f"{[src(c) for c in cache]}")
+    for c in cache:
+        g = [(fsp.norm(e, subst=False), p) for e, p in fsp.facts_at(c)]
+        chk.check(g in ([("hasattr(self, '_op_mode_support')", False)], []), "R4", f"{P}:BaseNode402.is_op_mode_supported | read when not cached yet", sp.loc(c), f"cache filled under {g}")
+        for r in rets:
+            wit = must_pass(fsp.cfg, lambda n: n.ast is c, to_nodes=[fsp.cfg.node_of(r)],
+                            skip_edge=lambda n, lab: n.kind == "test" and ((src(n.ast) == "not hasattr(self, '_op_mode_support')" and lab == "F") or (src(n.ast) == "hasattr(self, '_op_mode_support')" and lab == "T")))
+            chk.check(wit is None, "R4", f"{P}:BaseNode402.is_op_mode_supported | answer uses the drive's mask", sp.loc(r), f"{path_text(wit) if wit else ''}")
+
     # ------------------------------------------------------------------ R5 controlword delivery
     cw = repo.func(P, "BaseNode402.controlword.setter", "C19.R5")
     fc = ff_for(chk, cw, "C19.R5")
@@ -232,6 +259,10 @@ def run(chk):
     for s in stores:
         idx = {folder.try_fold(x.slice, Scope(mod), None) for x in ast.walk(_resolve(fc, s.targets[0])) if isinstance(x, ast.Subscript)}
         chk.check(idx == {0x6040}, "R5", f"{P}:BaseNode402.controlword.setter | object of {src(s.targets[0])}", cw.loc(s), f"controlword written to {idx}")
+        via_pdo = "rpdo_pointers" in src(_resolve(fc, s.targets[0]))
+        g = [(fc.norm(e, subst=False), p) for e, p in fc.facts_at(s) if "rpdo_pointers" in src(e)]
+        chk.check(g in ([("24640 in self.rpdo_pointers", via_pdo)], [("24640 not in self.rpdo_pointers", not via_pdo)]), "R5", f"{P}:BaseNode402.controlword.setter | {'PDO' if via_pdo else 'SDO'} path chosen by the RPDO mapping of 0x6040", cw.loc(s),
+                  f"`{src(s)[:50]}` under {g}")
         if "rpdo_pointers" in src(_resolve(fc, s.targets[0])):
             # after the PDO store: transmit unless periodic, on every path
             node = fc.cfg.node_of(s)
@@ -248,6 +279,9 @@ def run(chk):
                       f"after the PDO store a path of a non-periodic map returns without transmit() (e.g. when the value equals the cached one): the drive never receives "
                       f"the command: {path_text(w2) if w2 else ''}")
             for t in [n for n in fc.cfg.nodes if sends(n)]:
+                pd = fc.raw_def_at("pdo", t.ast)
+                chk.check(pd is not None and fc.norm(pd, subst=False) == "self.rpdo_pointers[24640].pdo_parent", "R5", f"{P}:BaseNode402.controlword.setter | the transmitted map is the controlword's",
+                          cw.loc(t.ast), f"pdo = {src(pd) if pd is not None else '?'}")
                 g = [(src(e), p) for e, p in fc.facts_at(t.ast)]
                 chk.check(("pdo.is_periodic", False) in g or ("not pdo.is_periodic", True) in g, "R5",
                           f"{P}:BaseNode402.controlword.setter | transmit when not periodic", cw.loc(t.ast), f"transmit under {g}")
@@ -352,6 +386,24 @@ def _machine_shapes(chk, repo, folder) -> bool:
         ok = False
     else:
         chk.ok("R2", f"{P}:BaseNode402._change_state | controlword", cs.loc(st[0]))
+    # a commanded transition is confirmed (or times out) before _change_state reports on it
+    fcs = ff_for(chk, cs, "C19.R2")
+    wl = [n for n in cs.node.body if isinstance(n, ast.While) and src(n.test) in ("self.state != target_state", "target_state != self.state")]
+    rt_true = [n for n in own_nodes(cs.node) if isinstance(n, ast.Return) and folder.try_fold(n.value, Scope(cs.mod), None) is True]
+    rt_false = [n for n in own_nodes(cs.node) if isinstance(n, ast.Return) and folder.try_fold(n.value, Scope(cs.mod), None) is False]
+    good = len(wl) == 1 and len(rt_true) == 1 and rt_true[0] in cs.node.body and cs.node.body.index(rt_true[0]) > cs.node.body.index(wl[0]) and not wl[0].orelse \
+        and not any(isinstance(x, ast.Break) for x in ast.walk(wl[0])) and bool(st) and st[0].lineno < wl[0].lineno
+    if good:
+        chk.ok("R2", f"{P}:BaseNode402._change_state | success reported only once the state is reached", cs.loc(wl[0]))
+        for r in rt_false:
+            g = [(fcs.norm(e, subst=False), p) for e, p in fcs.facts_at(r)]
+            chk.check(any(r is x for x in ast.walk(wl[0])) and any(p and "timeout" in t and "time.monotonic()" in t for t, p in g), "R2", f"{P}:BaseNode402._change_state | failure only on time-out", cs.loc(r), f"return False under {g}")
+        polls = [c for c in find_calls(wl[0], "self.check_statusword")]
+        chk.check(bool(polls), "R2", f"{P}:BaseNode402._change_state | statusword refreshed while waiting", cs.loc(wl[0]), "the loop never refreshes the statusword of a periodic TPDO")
+    else:
+        chk.bad("R2", f"{P}:BaseNode402._change_state | success reported only once the state is reached", cs.loc(),
+                "`return True` is not preceded by `while self.state != target_state` (without break): the next transition is computed from a state the drive has not reached yet")
+        ok = False
     se = repo.func(P, "BaseNode402.state.setter", "C19.R2")
     fs = ff_for(chk, se, "C19.R2")
     whiles = [n for n in own_nodes(se.node) if isinstance(n, ast.While)]
